@@ -155,12 +155,29 @@ func cachePath(cacheDir string) (string, error) {
 	return filepath.Join(cacheDir, "link"+goExe), nil
 }
 
-func getCurrentVersion(goVersion, patchesVer string) string {
+func getCurrentVersion(goVersion, patchesVer, linkerSum string) string {
 	// Note that we assume that if a Go toolchain reports itself as e.g. go1.24.1,
 	// it really is that upstream Go version with no alterations or edits.
 	// If any modifications are made, it should report itself as e.g. go1.24.1-corp.
 	// The alternative would be to use the content ID hash of the cmd/link binary.
-	return goVersion + " " + patchesVer + "\n"
+	//
+	// The checksum of the linker binary we built is recorded as well, so that
+	// a truncated or otherwise damaged binary is rebuilt rather than executed.
+	return goVersion + " " + patchesVer + " " + linkerSum + "\n"
+}
+
+// fileSum returns the hex-encoded SHA-256 of a file, or "" if it cannot be read.
+func fileSum(path string) string {
+	f, err := os.Open(path)
+	if err != nil {
+		return ""
+	}
+	defer f.Close()
+	h := sha256.New()
+	if _, err := io.Copy(h, f); err != nil {
+		return ""
+	}
+	return fmt.Sprintf("%x", h.Sum(nil))
 }
 
 const versionExt = ".version"
@@ -175,12 +192,12 @@ func checkVersion(linkerPath, goVersion, patchesVer string) (bool, error) {
 		return false, err
 	}
 
-	return string(version) == getCurrentVersion(goVersion, patchesVer), nil
+	return string(version) == getCurrentVersion(goVersion, patchesVer, fileSum(linkerPath)), nil
 }
 
 func writeVersion(linkerPath, goVersion, patchesVer string) error {
 	versionPath := linkerPath + versionExt
-	return os.WriteFile(versionPath, []byte(getCurrentVersion(goVersion, patchesVer)), 0o777)
+	return os.WriteFile(versionPath, []byte(getCurrentVersion(goVersion, patchesVer, fileSum(linkerPath))), 0o777)
 }
 
 func buildLinker(goRoot, workingDir string, overlay map[string]string, outputLinkPath string) error {
